@@ -120,12 +120,17 @@ func (xmlNode *unmarshaledXML) unserializedChildren(path []string, sn schema.Nod
 			v.Children = append(v.Children, c)
 		case schema.List:
 			// We may validly have multiple list elements with the same
-			// name so no need to check ok.  For each element we create a
-			// List entry in <list>, with a single child for the listEntry.
-			v = &unmarshaledXML{c.XMLName, c.XMLAttr, "", make([]*unmarshaledXML, 0)}
-			fields[name] = v
-			list = append(list, v)
+			// name.  They are the entries of one list: the first creates
+			// the <list> node, each adds a child for its listEntry.
+			if !ok {
+				v = &unmarshaledXML{c.XMLName, c.XMLAttr, "", make([]*unmarshaledXML, 0)}
+				fields[name] = v
+				list = append(list, v)
+			}
 			v.Children = append(v.Children, c)
+		case schema.ListEntry:
+			// The entries of the list node we are in
+			list = append(list, c)
 		case schema.Leaf:
 			if ok {
 				err := mgmterror.NewTooManyElementsError(name)
